@@ -83,18 +83,44 @@ def table(srcdir="/repo/src"):
                 continue
             path = os.path.join(root, f)
             rel = os.path.relpath(path, srcdir)
-            for name, body in functions(strip(open(path).read())):
+            fns = functions(strip(open(path).read()))
+            # functions of this file that take the lock / touch an atomic themselves: a call to one
+            # of them from another function is a further critical section of the caller
+            skip = {"new", "drop", "clone", "poll", "fmt"}
+            lock_re = r"\.lock\(\)|\.(fetch_add|fetch_sub|load|store|compare_exchange|swap)\("
+            # (owner, method) pairs that lock; `self.m(` resolves inside the caller's own type,
+            # any other receiver is matched by method name among the OTHER types of the file
+            lockers = {(n.rsplit("::", 1)[0] if "::" in n else "", n.split("::")[-1]) for n, b in fns if re.search(lock_re, b)}
+            lockers = {(o, m) for o, m in lockers if m not in skip}
+            for name, body in fns:
+                owner = name.rsplit("::", 1)[0] if "::" in name else ""
+                owner_t = owner.split(" for ")[-1]
+                own = name.split("::")[-1]
+                inner = body[1:]
+                calls = set()
+                for o, m in lockers:
+                    o_t = o.split(" for ")[-1]
+                    if m == own and o_t == owner_t:
+                        continue
+                    # only calls that resolve unambiguously: `self.m(...)` to a locking method of the
+                    # caller's own type (a second critical section of the same public call)
+                    if o_t == owner_t and re.search(r"\bself\s*\.\s*%s\(" % re.escape(m), inner):
+                        calls.add(m)
+                calls = sorted(calls)
+                if calls and not re.search(r"\.lock\(\)|\.(fetch_add|fetch_sub|load|store|compare_exchange|swap)\(", body):
+                    # pure wrappers are recorded too (they are one section, through the callee)
+                    pass
                 locks = len(re.findall(r"\.lock\(\)", body))
                 atom = len(re.findall(r"\.(fetch_add|fetch_sub|load|store|compare_exchange|swap)\(", body))
                 orders = re.findall(r"Ordering::(\w+)|\b(Relaxed|Release|Acquire|AcqRel|SeqCst)\b", body)
                 orders = [a or b for a, b in orders]
                 fences = len(re.findall(r"\bfence\(", body))
-                if locks + atom:
+                if locks + atom or calls:
                     key = rel + "::" + name
                     k2, c = key, 2
                     while k2 in t:
                         k2 = "%s#%d" % (key, c); c += 1
-                    t[k2] = dict(locks=locks, atomics=atom, orderings=orders, fences=fences)
+                    t[k2] = dict(locks=locks, atomics=atom, orderings=orders, fences=fences, locking_calls=calls)
     return t
 
 
